@@ -237,6 +237,7 @@ func run(s Script) (res vt.Result) {
 	server := mcp.NewServer(&mcp.Implementation{Name: "c16-server", Version: "1"}, opts)
 
 	var expIn func([]byte) ([]byte, error)
+	derivedOut := false // gotype family: no OutputSchema was given, it is derived from the Go type
 	regErr := func() (err error) {
 		defer func() {
 			if r := recover(); r != nil {
@@ -253,6 +254,7 @@ func run(s Script) (res vt.Result) {
 			}
 			gt.reg(server, env, "t")
 			expIn = gt.expIn
+			derivedOut = !gt.explicitOut
 			return nil
 		}
 		return fmt.Errorf("unknown family %q", s.Family)
@@ -435,11 +437,16 @@ func run(s Script) (res vt.Result) {
 			}
 			cands = append(cands, cand{w, len(validate(pub.Out, w)) == 0, odi.Applied})
 		}
-		addCand(outVal)
-		if outNilPtr {
+		if outNilPtr && derivedOut {
+			// The output schema was derived from the pointer's element type: the SDK documents (toolForErr,
+			// setSchema) that the zero value of the element type is used in place of the typed nil. One reading.
 			res.Class("out_nil_pointer")
 			addCand(mustDecode(outZero))
-		} else if outVal == nil {
+		} else if outNilPtr {
+			res.Class("out_nil_pointer")
+			addCand(outVal)
+			addCand(mustDecode(outZero))
+		} else if addCand(outVal); outVal == nil {
 			if m, ok := pub.Out.(map[string]any); ok && m["type"] == "object" {
 				addCand(map[string]any{})
 			}
